@@ -2,6 +2,7 @@ package main
 
 import (
 	"fmt"
+	"math"
 	"strings"
 
 	"github.com/golang/geo/s1"
@@ -245,6 +246,9 @@ func (g *polyGen) names() []string { return g.ops }
 func genPolygon(j job) *polyGen {
 	rng := vkit.NewRng(j.Seed)
 	g := &polyGen{}
+	if rng.Intn(5) < 2 {
+		return genManyLoopPolygon(j, rng, g)
+	}
 	n := []int{4, 40, 100}[rng.Intn(3)]
 	shell := shapeSpec{Kind: "loop", Lat: rng.Range(-30, 30), Lng: rng.Range(-50, 50), R: rng.Range(5, 20), N: n}
 	g.specs = append(g.specs, shell)
@@ -277,6 +281,112 @@ func genPolygon(j job) *polyGen {
 	}
 	g.ops = applyKeep(g.ops, j.Keep)
 	return g
+}
+
+// genManyLoopPolygon: 13..30 disjoint shells of different sizes and vertex counts on a grid
+// (more than 12 loops: the polygon keeps a table of per-loop edge offsets), the largest one
+// NOT first, so that Invert (which moves the inverted largest shell to the front) reorders them.
+func genManyLoopPolygon(j job, rng *vkit.Rng, g *polyGen) *polyGen {
+	k := 13 + rng.Intn(18)
+	big := 1 + rng.Intn(k-1)
+	lat0, lng0 := rng.Range(-30, -10), rng.Range(-60, -30)
+	for i := 0; i < k; i++ {
+		sp := shapeSpec{Kind: "loop", Lat: lat0 + 9*float64(i/6), Lng: lng0 + 9*float64(i%6), R: rng.Range(0.8, 2.5), N: 3 + rng.Intn(9)}
+		if i == big {
+			sp.R, sp.N = 3.9, 20+rng.Intn(30)
+		}
+		g.specs = append(g.specs, sp)
+	}
+	for i, sp := range g.specs {
+		if i%3 == 0 || i == big {
+			g.probes = append(g.probes, ll(sp.Lat+0.01, sp.Lng+0.02), ll(sp.Lat+1.3*sp.R, sp.Lng+0.04))
+		}
+	}
+	for q := 0; q < 6; q++ {
+		g.probes = append(g.probes, ll(rng.Range(-85, 85), rng.Range(-175, 175)))
+	}
+	cid := s2.CellFromPoint(ll(g.specs[big].Lat, g.specs[big].Lng)).ID()
+	for _, lvl := range []int{3, 6, 9} {
+		g.cells = append(g.cells, s2.CellFromCellID(cid.Parent(lvl)))
+	}
+	g.ops = []string{"query"}
+	for inv := 1 + rng.Intn(3); inv > 0; inv-- {
+		g.ops = append(g.ops, "invert")
+		if rng.Bool() {
+			g.ops = append(g.ops, []string{"build", "query"}[rng.Intn(2)])
+		}
+	}
+	g.ops = append(g.ops, "query")
+	g.ops = applyKeep(g.ops, j.Keep)
+	return g
+}
+
+// shapeView: everything the Shape interface of a polygon exposes, against (a) the same calls on
+// a fresh polygon and (b) offsets recomputed from Loops() by the harness.
+func polygonShapeProblems(p, fresh *s2.Polygon) []string {
+	var out []string
+	sameOrder := p.NumLoops() == fresh.NumLoops()
+	for i := 0; sameOrder && i < p.NumLoops(); i++ {
+		a, b := p.Loop(i).Vertices(), fresh.Loop(i).Vertices()
+		sameOrder = len(a) == len(b) && (len(a) == 0 || a[0] == b[0])
+	}
+	if p.NumEdges() != fresh.NumEdges() || p.NumChains() != fresh.NumChains() {
+		return []string{fmt.Sprintf("NumEdges/NumChains = %d/%d, fresh polygon %d/%d", p.NumEdges(), p.NumChains(), fresh.NumEdges(), fresh.NumChains())}
+	}
+	off := 0
+	for i, l := range p.Loops() {
+		n := l.NumVertices()
+		if n == 1 { // full loop: a chain without edges
+			continue
+		}
+		if c := p.Chain(i); c.Start != off || c.Length != n {
+			out = append(out, fmt.Sprintf("Chain(%d) = {%d %d}, its loops say {%d %d}", i, c.Start, c.Length, off, n))
+		}
+		for k := 0; k < n; k++ {
+			e := off + k
+			want := s2.Edge{V0: l.OrientedVertex(k), V1: l.OrientedVertex(k + 1)}
+			if got := p.Edge(e); got != want {
+				out = append(out, fmt.Sprintf("Edge(%d) is not edge %d of loop %d", e, k, i))
+			}
+			if cp := p.ChainPosition(e); cp.ChainID != i || cp.Offset != k {
+				out = append(out, fmt.Sprintf("ChainPosition(%d) = {%d %d}, its loops say {%d %d}", e, cp.ChainID, cp.Offset, i, k))
+			}
+			if sameOrder {
+				if p.Edge(e) != fresh.Edge(e) || p.ChainPosition(e) != fresh.ChainPosition(e) {
+					out = append(out, fmt.Sprintf("Edge(%d)/ChainPosition(%d) differ from the fresh polygon's", e, e))
+				}
+			}
+			if len(out) > 3 {
+				return out
+			}
+		}
+		if sameOrder && p.Chain(i) != fresh.Chain(i) {
+			out = append(out, fmt.Sprintf("Chain(%d) = %v, fresh polygon %v", i, p.Chain(i), fresh.Chain(i)))
+		}
+		off += n
+	}
+	return out
+}
+
+// external index holding the polygon as a shape: ContainsPointQuery / CrossingEdgeQuery / EdgeQuery
+func (g *polyGen) indexedAnswers(p *s2.Polygon) []string {
+	ix := s2.NewShapeIndex()
+	ix.Add(p)
+	q := s2.NewContainsPointQuery(ix, s2.VertexModelSemiOpen)
+	var out []string
+	for i, pt := range g.probes {
+		s := fmt.Sprintf("ContainsPointQuery=%v", q.Contains(pt))
+		if i+1 < len(g.probes) {
+			es := append([]int{}, s2.NewCrossingEdgeQuery(ix).Crossings(pt, g.probes[i+1], p, s2.CrossingTypeAll)...)
+			s += fmt.Sprintf(" crossings=%d", len(es))
+		}
+		if i%4 == 0 {
+			d := s2.NewClosestEdgeQuery(ix, s2.NewClosestEdgeQueryOptions().IncludeInteriors(false)).Distance(s2.NewMinDistanceToPointTarget(pt))
+			s += fmt.Sprintf(" dist=%x", math.Float64bits(float64(d)))
+		}
+		out = append(out, s)
+	}
+	return out
 }
 
 func (g *polyGen) build() *s2.Polygon {
@@ -333,7 +443,21 @@ func execPolygon(j job, r *result) {
 			for _, l := range p.Loops() {
 				ls = append(ls, s2.LoopFromPoints(append([]s2.Point{}, l.Vertices()...)))
 			}
-			wantP, wantR := g.answers(s2.PolygonFromLoops(ls))
+			fresh := s2.PolygonFromLoops(ls)
+			wantP, wantR := g.answers(fresh)
+			for _, msg := range polygonShapeProblems(p, fresh) {
+				r.Mismatch = append(r.Mismatch, fmt.Sprintf("op %d after %d Invert(s), polygon of %d loops: %s", k, inverts, p.NumLoops(), msg))
+				r.Kinds = append(r.Kinds, "Polygon.Invert.shape")
+			}
+			if gi, wi := g.indexedAnswers(p), g.indexedAnswers(fresh); true {
+				for i := range gi {
+					if gi[i] != wi[i] {
+						r.Mismatch = append(r.Mismatch, fmt.Sprintf("op %d after %d Invert(s), probe %d, polygon as a shape in an index: {%s}, a fresh polygon from copies of its loops: {%s}", k, inverts, i, gi[i], wi[i]))
+						r.Kinds = append(r.Kinds, "Polygon.Invert.history")
+						break
+					}
+				}
+			}
 			for i := range gotP {
 				if gotP[i] != wantP[i] {
 					r.Mismatch = append(r.Mismatch, fmt.Sprintf("op %d after %d Invert(s): ContainsPoint(probe %d)=%v, a fresh polygon from copies of its loops says %v", k, inverts, i, gotP[i], wantP[i]))
